@@ -88,6 +88,7 @@ func runCKKSMisc(c *eng.Ctx, cfg pcfg) {
 			s.poison(newPoisoner(c.Rand(), 1), ev)
 		}
 		err := ev.RotateHoisted(a, rots, outs)
+		t.out(outs) // (the map is the caller's: every element must still be the caller's object, with arrays of its own)
 		str := ""
 		for _, k := range rots {
 			str += fmt.Sprintf("%d:%s;", k, cvalString(canonCt(s.rq, outs[k])))
